@@ -137,7 +137,7 @@ func c18Selects(thorough bool) []string {
 	}
 	// every select item x every FROM
 	items := []string{"*", "a", "c", "d", "t.a", "u.e", "nosuch", "a x", "a AS x", "1", "'s'", "true", "a = 1", "c = a", "a = c x",
-		"count(*)", "count(a)", "count(c)", "count(nosuch)", "count(t.d)", "avg(a)", "avg(b)", "avg(c)", "avg(d)", "avg(nosuch)", "avg(u.a)", "avg(t.a)", "avg(a) m", "count(*) n"}
+		"count(*)", "count(a)", "count(c)", "count(nosuch)", "count(t.d)", "avg(a)", "avg(b)", "avg(c)", "avg(d)", "avg(nosuch)", "avg(u.a)", "avg(t.a)", "avg(a) m", "count(*) n", "avg(*)", "count()", "avg()", "count(*, a)", "avg(a, b)", "count(1)", "avg(1)", "count(count(a))", "avg(t.*)", "count(t.*)"}
 	for _, it := range items {
 		for _, f := range froms {
 			out = append(out, fmt.Sprintf("SELECT %s FROM %s", it, f))
